@@ -18,13 +18,17 @@ Local Open Scope N_scope.
 Record rentry := mkREntry { r_node : str; r_reg : reg }.
 
 Section Glue.
-  Variable isprint : N -> bool.          (* strconv.IsPrint, as in C14 *)
+  (* strconv.ParseFloat, url.Parse, glob.Compile, as in C14 / C05: since /repo d16ce3d
+     routecmd.build validates every command with route.NewTable and drops a rejected one *)
+  Variable pw : str -> outcome wt.
+  Variable canon : str -> option str.
+  Variable gl : str -> bool.
   Variable env : env_t.                   (* the env map of routecmd: {"DC": dc} *)
   Variable prefix : str.                  (* registry.consul.tagprefix *)
 
   Definition centry_of (r : rentry) : centry :=
     mkEntry (r_node r) (g_id (r_reg r)) (g_name (r_reg r)) (g_tags (r_reg r))
-            (RouteCmd.build isprint env prefix (r_reg r)).
+            (RouteCmd.build pw canon gl env prefix (r_reg r)).
   Definition catalog_of (rcat : list rentry) : list centry := map centry_of rcat.
 
   (* the text one round of ServiceMonitor.Watch pushes for the registry state (checks, rcat) *)
@@ -65,6 +69,16 @@ Definition inst_healthy (status : list str) (strict : bool) (checks : list hchec
    (C14's [intents]: service, route = host/path, destination, weight, tags, options) *)
 Definition advertises_intent (env : env_t) (prefix : str) (r : rentry) (i : intent) : Prop :=
   In i (intents env prefix (r_reg r)).
+
+(* the command build keeps for the intent: it validates *)
+Definition emitted (pw : str -> outcome wt) (canon : str -> option str) (gl : str -> bool) (i : intent) : Prop :=
+  validate pw canon gl (render_intent i) = true.
+
+(* the table has the target a parsed 'route add' definition stands for *)
+Definition def_target (canon : str -> option str) (t : table) (d : def) : Prop :=
+  exists url tg, canon (d_dst d) = Some url
+    /\ In (lower (fst (hostpath (d_src d))), snd (hostpath (d_src d)), tg) (flat t)
+    /\ same_target (d_svc d) url (w_clamp (d_w d)) (d_tags d) tg = true.
 
 (* "the table has a target for the instance and prefix": under (lower-cased host, path) a
    target with the instance's service name, destination URL, weight and tags *)
